@@ -394,6 +394,97 @@ func runNyctTrips(c *Ctx) {
 			c.Check(okInt, "NYCT", fname, "origin-time arithmetic is integer arithmetic", p.ipos(fs.store), "no floating-point value between the six digits and the formatted time (hundredths of a minute are truncated exactly)", "the start time is computed through floating point: some of the 600000 origin times round to the wrong second")
 			// hundredths of a minute become seconds by multiplying first and dividing afterwards (x*6/10, any a/b = 3/5): a
 			// division applied to the raw number first throws its last digit away
+			// the hours shown are all the hours there are: the first formatted value is the seconds since midnight
+			// divided by 3600, and those seconds are the scaled origin time itself -- not a value that a helper
+			// wrapped around at 24 hours or clamped (origin times up to 599999 hundredths are 99:59:59)
+			{
+				okHours, whyHours := false, "the formatted hours were not found"
+				for _, in := range regionInstrs(c.regionOf(upd)) {
+					sp, isCall := in.(*ssa.Call)
+					if !isCall || calleeName(sp) != "fmt.Sprintf" || len(sp.Call.Args) < 2 {
+						continue
+					}
+					if f, isS := constString(sp.Call.Args[0]); !isS || f != "%02d:%02d:%02d" {
+						continue
+					}
+					var hv ssa.Value
+					if sl, isSl := sp.Call.Args[1].(*ssa.Slice); isSl {
+						if arr, isArr := sl.X.(*ssa.Alloc); isArr {
+							for _, ref := range *arr.Referrers() {
+								if ia, isIA := ref.(*ssa.IndexAddr); isIA {
+									if k, isK := constInt(ia.Index); isK && k == 0 {
+										for _, r2 := range *ia.Referrers() {
+											if st, isSt := r2.(*ssa.Store); isSt {
+												hv = st.Val
+											}
+										}
+									}
+								}
+							}
+						}
+					}
+					strip := func(v ssa.Value) ssa.Value {
+						for i := 0; i < 6; i++ {
+							switch x := v.(type) {
+							case *ssa.MakeInterface:
+								v = x.X
+							case *ssa.Convert:
+								v = x.X
+							case *ssa.ChangeType:
+								v = x.X
+							default:
+								return v
+							}
+						}
+						return v
+					}
+					if hv == nil {
+						continue
+					}
+					// from the formatted hours down to the parsed number: only multiplications and divisions by constants
+					// (hours = parsed * 6 / 10 / 3600, in whatever steps), no helper, no remainder, no merge of values
+					num, den := int64(1), int64(1)
+					cur := strip(hv)
+					whyHours = ""
+					for step := 0; step < 12 && whyHours == ""; step++ {
+						if ex, isEx := cur.(*ssa.Extract); isEx {
+							if cl, isCl := ex.Tuple.(*ssa.Call); isCl && calleeName(cl) == "strconv.Atoi" {
+								break
+							}
+						}
+						if prm, isPrm := cur.(*ssa.Parameter); isPrm {
+							// the arithmetic sits in a helper: go on with what its one caller passes
+							if args := paramArgs(prm); len(args) == 1 {
+								cur = strip(args[0])
+								continue
+							}
+						}
+						bo, isBo := cur.(*ssa.BinOp)
+						if !isBo {
+							whyHours = "the seconds since midnight pass through " + descr(cur) + " before the hours are taken (a wrap-around at 24 hours or a clamp changes origin times from 144000 on)"
+							break
+						}
+						k, isK := constInt(bo.Y)
+						switch {
+						case bo.Op == token.QUO && isK && k > 0:
+							den *= k
+						case bo.Op == token.MUL && isK && k > 0:
+							num *= k
+						default:
+							whyHours = "the hours are computed with `" + canon(bo) + "`, not by scaling and dividing the origin time"
+						}
+						cur = strip(bo.X)
+					}
+					if whyHours == "" {
+						if den == num*6000 {
+							okHours = true
+						} else {
+							whyHours = fmt.Sprintf("the hours are the parsed number times %d/%d, not 6/36000", num, den)
+						}
+					}
+				}
+				c.Check(okHours, "NYCT", fname, "hours of the start time are not reduced", p.ipos(fs.store), "hours = (scaled origin time) / 3600, on the scaled value itself", whyHours)
+			}
 			if okInt {
 				okScale, whyScale := scaledBeforeDivided(regionInstrs(c.regionOf(upd)))
 				c.Check(okScale, "NYCT", fname, "hundredths of a minute are scaled to seconds before anything is divided", p.ipos(fs.store), "the parsed number is multiplied by a and the product divided by b with a/b = 6/10; nothing else is computed from the raw number", whyScale)
@@ -960,6 +1051,50 @@ func runNyctAlerts(c *Ctx) {
 	}
 	runAlertStateConfinement(c, ua)
 	runElevatorStepFirst(c, ua, ue)
+	// every informed entity is asked for its Mercury priority: in the loop that does so, no path around the loop goes
+	// past the call (a selector skipped beforehand -- "has no route, stop or trip" -- is an agency-wide or route-type
+	// selector whose priority then neither sets the effect nor drops the alert)
+	{
+		nLoops := 0
+		for _, g := range c.regionOf(ua) {
+			if fnPkgPath(g) != fnPkgPath(ua) {
+				continue
+			}
+			for _, l := range naturalLoops(g) {
+				var site *ssa.BasicBlock
+				for blk := range l.Blocks {
+					for _, in := range blk.Instrs {
+						if call, ok := in.(*ssa.Call); ok && staticCallee(call) == gp {
+							site = blk
+						}
+					}
+				}
+				if site == nil {
+					continue
+				}
+				nLoops++
+				skipped := false
+				pathsWithin(l.Header, l, func(path []*ssa.BasicBlock, back bool) {
+					if !back {
+						return
+					}
+					has := false
+					for _, pb := range path {
+						if pb == site {
+							has = true
+						}
+					}
+					if !has {
+						skipped = true
+					}
+				})
+				c.Check(!skipped, "ALRT", shortName(g), "every informed entity is asked for its priority", p.pos(l.Header.Instrs[0].Pos()), "no path around the loop over the informed entities goes past "+gp.Name(), "some informed entities are skipped before their Mercury priority is read: their priority neither sets the effect nor drops a timetabled no-service alert")
+			}
+		}
+		if nLoops == 0 {
+			c.Undecided("ALRT", shortName(ua), "every informed entity is asked for its priority", p.pos(ua.Pos()), "no loop that calls "+gp.Name()+" was found")
+		}
+	}
 	// Y1: alerts are dropped only with the option set and for an entity whose Mercury priority is one of the three
 	// timetabled no-service priorities -- the set may be a map literal or a predicate function
 	var wantPrio []string
